@@ -95,7 +95,7 @@ def run(tier, seed):
     if err:
         res.broken.append(("model driver build", err))
         drv = NO_MODEL
-    names = (st.get("modules", {}).get("Avx2", {}) or {}).get("names", [])
+    names = (st.get("modules", {}).get("Avx2", {}) or {}).get("names", []) + (st.get("modules", {}).get("Avx2", {}) or {}).get("untranslated", [])
     missing = [k for k in specs() if k not in names]
     if missing:
         res.broken.append(("kernels missing from the translated module", ", ".join(missing)))
